@@ -28,6 +28,10 @@ pub fn corpus_json_thorough() -> String {
     corpus_json_of(alphabet::pair_corpus_thorough())
 }
 
+pub fn corpus_json_blocks() -> String {
+    corpus_json_of(alphabet::ws_block_strings())
+}
+
 pub fn corpus_json() -> String {
     corpus_json_of(alphabet::pair_corpus())
 }
@@ -57,7 +61,9 @@ fn same_f64(a: f64, b: f64) -> bool {
 pub fn run(verbose: bool) -> i32 {
     let a = run_table(verbose, "fixtures/es_truth.json", alphabet::pair_corpus(), true);
     let b = run_table(verbose, "fixtures/es_truth_thorough.json", alphabet::pair_corpus_thorough(), false);
-    if a != 0 || b != 0 {
+    // per-value verdicts only (Number(), parseFloat(), String()) for the white-space blocks
+    let c = run_table(verbose, "fixtures/es_blocks.json", alphabet::ws_block_strings(), false);
+    if a != 0 || b != 0 || c != 0 {
         1
     } else {
         0
@@ -94,7 +100,8 @@ fn run_table(verbose: bool, fixture: &str, corpus: Vec<Value>, with_shared_cases
             _ => None,
         }
     };
-    for i in 0..n {
+    let pairwise = !eq.is_empty();
+    for i in 0..(if pairwise { n } else { 0 }) {
         for j in 0..n {
             let (a, b) = (&corpus[i], &corpus[j]);
             let mut one = |name: &str, w: Option<bool>, got: bool| {
